@@ -40,6 +40,15 @@ impl Sc {
             Sc::Po(s) => polling::run_ops(s, clock, ops, obs),
         }
     }
+    /// `Clone::clone_from` of the scanner itself (not of this wrapper)
+    pub fn clone_from_inner(&mut self, other: &Sc) {
+        match (self, other) {
+            (Sc::Cc(a), Sc::Cc(b)) => a.clone_from(b),
+            (Sc::Pn(a), Sc::Pn(b)) => a.clone_from(b),
+            (Sc::Po(a), Sc::Po(b)) => a.clone_from(b),
+            _ => {}
+        }
+    }
     pub fn reset(&mut self) {
         match self {
             Sc::Cc(s) => s.reset(),
@@ -215,7 +224,27 @@ pub fn exec(tag: i64, inp: &[i64]) -> Vec<i64> {
             if !d.run(&mut Clock(t1), ops2, &mut od) {
                 return vec![PANIC];
             }
-            obs[2] = (e3 && c == d) as i64;
+            // `clone()` and `clone_from` (into a scanner with another timeout and some history of
+            // its own) give equal scanners that evolve like the source
+            let mut e4 = true;
+            for other_timeout in [0i64, 7, 1_000_000] {
+                let mut target = Sc::new(kind % 10, other_timeout);
+                let mut scratch2 = Vec::new();
+                let warm: Vec<i64> = ops1.iter().copied().take(24).collect();
+                if !target.run(&mut Clock(0), &warm, &mut scratch2) {
+                    return vec![PANIC];
+                }
+                target.clone_from_inner(&saved);
+                #[allow(clippy::clone_on_copy)]
+                let mut cloned = saved.clone();
+                let (mut o5, mut o6) = (Vec::new(), Vec::new());
+                e4 &= target == saved && cloned == saved;
+                if !target.run(&mut Clock(t1), ops2, &mut o5) || !cloned.run(&mut Clock(t1), ops2, &mut o6) {
+                    return vec![PANIC];
+                }
+                e4 &= o5 == od && o6 == od;
+            }
+            obs[2] = (e3 && c == d && e4) as i64;
             obs.extend(oa);
             obs.extend(ob);
             obs.extend(oc);
@@ -391,6 +420,35 @@ pub fn gen_c15(tier: Tier, seed: u64, em: &mut Emitter) {
         let mut inp = vec![kind, timeout, 2, a, b, 0];
         inp.extend_from_slice(&ops);
         em.emit_k(&format!("drift-cycles/kind={}", kind), 150, inp);
+    }
+    // a block [reset, traffic on b] about 2^16 times while channel a has progress from before
+    for kind in 0..3i64 {
+        let timeout = if kind == 2 { 5 } else { 0 };
+        for d in 0..5i64 {
+            let n = 65_533 + d;
+            let (a, b) = (r.below(16) as i64, r.below(16) as i64);
+            let b = if b == a { (a + 1) % 16 } else { b };
+            let mut ops: Vec<i64> = if kind == 0 {
+                vec![0, 176 + a, 3, 9]
+            } else {
+                vec![0, 176 + a, 99, 3, 0, 176 + a, 98, 36, 0, 176 + a, 38, 24]
+            };
+            let block: Vec<i64> = if kind == 0 { vec![2, 0, 0, 0, 0, 176 + b, 4, 1] } else { vec![2, 0, 0, 0, 0, 176 + b, 99, 1] };
+            ops.extend_from_slice(&[11, n, 2, 0]);
+            ops.extend_from_slice(&block);
+            ops.extend_from_slice(&block);
+            if kind == 0 {
+                ops.extend_from_slice(&[0, 176 + a, 35, 7, 0, 176 + b, 36, 2]);
+            } else {
+                ops.extend_from_slice(&[0, 176 + a, 6, 117, 0, 176 + b, 98, 2, 0, 176 + b, 6, 3]);
+                if kind == 2 {
+                    ops.extend_from_slice(&[4, 5, 0, 0, 3, a, 0, 0, 3, b, 0, 0]);
+                }
+            }
+            let mut inp = vec![kind, timeout, 2, a, b, 0];
+            inp.extend_from_slice(&ops);
+            em.emit_k(&format!("block-repeated-2^16/kind={}", kind), 150, inp);
+        }
     }
     // all 16 channels in the same phase at once (everything selected / every channel with a
     // pending first value byte / fifteen pending and one not), in any channel order and with
